@@ -166,6 +166,7 @@ type State struct {
 	errArg   *Val // cursor argument of the error constructor on an error return
 	errPos   string
 	readStale []string
+	panicked string // a runtime panic was reached while evaluating an expression
 }
 
 type pushRec struct {
